@@ -115,6 +115,30 @@ PROPS = {
         "level_note": "Trusted: oracle.Game (exact position comparison over the whole history, FIDE clock).",
         "technique": "property-based testing (rapid): generated histories with forks, model-based oracle (independent game-rules model), invariant after every step",
     },
+    "C08": {
+        "title": "take-back and fork",
+        "run": "^TestC08_",
+        "level": "exploration",
+        "shards": 16,
+        "timeout": 420,
+        "thorough_scale": 12,
+        "rule": "C08/history: generated programs of 1-120 operations over up to 4 boards: push (legal move drawn from the oracle), "
+                "probe (push; take back; push again - must give the identical state), illegal (pseudo-legal but illegal move: must be "
+                "refused and change nothing), pop (never below the fork point a board shares), pop on an empty history, fork. Model = "
+                "per board a stack of snapshots of everything the board reports (position value, side, hash, half-move clock, ply, "
+                "full moves, has-castled x2, last / second-to-last move, HasMoved(1/3/1000), String() with the result masked, drawn "
+                "flag); after EVERY operation EVERY live board must equal the top of its own stack (isolation), a take-back must give "
+                "a not-drawn result when the state before the move was not drawn, and C05's oracle judges every push (repetitions "
+                "against the common past). Non-trivial = distinct programs with >= 2 take-backs at nesting >= 2, or a fork followed "
+                "by operations on more than one board. evaluations = programs.",
+        "assumptions": COMMON_ASSUMPTIONS + ["boards do not take back below a fork point they share (documented precondition of Board.Fork)",
+                                             "after a take-back from a state that was already flagged drawn the result may be either (the property only promises 'not drawn' when it was not drawn before)"],
+        "level_text": "Exploration with a model: stateful operation sequences over several forked boards, an inverse (snapshot "
+                      "stack) oracle after every step on every board, so an operation on one board that disturbs another is caught "
+                      "at that step.",
+        "level_note": "Trusted: snapshots are taken from the board itself (round-trip oracle); position identity and draw rules from harness/oracle.",
+        "technique": "stateful / model-based property testing (rapid): generated push/pop/fork programs, snapshot-stack model, invariant after every step",
+    },
 }
 
 # Properties not claimed, with the reason (kept current).
